@@ -392,6 +392,7 @@ void vf_world_init(size_t mtu, int wifi, uint8_t fill) {
         vf_iface *f = &W.iface[i];
         f->id = i;
         memcpy(f->mac, vf_station[i == 0 ? ST_OWN : ST_OWN2], 6);
+        if (i >= 2) f->mac[4] = (uint8_t)(0x60 + i);        /* further interfaces: distinct addresses */
         f->flags = 0x2000; f->iftype = 6;
         f->ipv4_be = 0x0a01a8c0u + ((uint32_t)i << 24);
         for (int k = 0; k < 16; k++) f->ipv6[k] = (uint8_t)(0xfe - k * 7 + i);
